@@ -20,6 +20,7 @@ type dtree struct {
 	Notrim []bool   `json:"notrim"`
 	Keep   []bool   `json:"keep"`
 	Lit    []string `json:"lit"`
+	Ie     []bool   `json:"ie,omitempty"` // ignore_error of custom_func declarations
 }
 
 type c02Case struct {
@@ -88,7 +89,14 @@ func (r *schemaRenderer) body(i int) []string {
 		if strings.HasPrefix(lit, "str:") {
 			script = "'" + script + "'"
 		}
-		parts = append(parts, `"custom_func": {"name": "javascript", "args": [{"const": `+jstr(script)+`}]}`)
+		if strings.HasPrefix(lit, "throw:") {
+			script = "throw '" + script + "'"
+		}
+		ie := ""
+		if len(t.Ie) >= i && t.Ie[i-1] {
+			ie = `, "ignore_error": true`
+		}
+		parts = append(parts, `"custom_func": {"name": "javascript", "args": [{"const": `+jstr(script)+`}]`+ie+`}`)
 	case "object":
 		var fs []string
 		for k, c := range t.kids(i) {
